@@ -161,8 +161,9 @@ def gen(rp, rw, tier):
             x = _dt.date(*pool[0]["f"][:3])
             tgt = g + _dt.timedelta(days=rp.choice([0, 1, 1, -1]))
             if tgt != x:
-                ops.insert(rp.randrange(len(ops) + 1), ["call", {"$": "p", "i": 0}, "next" if tgt > x else "previous",
-                                                        [{"$": "wd", "v": tgt.weekday()}], {"keep_time": True}])
+                # appended, never inserted: {"$": "r"} references count ops by position
+                ops.append(["call", {"$": "p", "i": 0}, "next" if tgt > x else "previous",
+                            [{"$": "wd", "v": tgt.weekday()}], {"keep_time": True}])
         actors.append({"name": "T%d" % (c + 1), "ops": ops})
     world = {"week_start": rw.randrange(7), "week_end": rw.randrange(7)}
     if rw.random() < 0.3:
